@@ -13,6 +13,8 @@ CONSTANTS
   ClassComments <- NoComment
   TopAlpha <- NestTops
   MaxTops = 1
+  AliasAlpha <- None
+  MaxAliases = 0
   CmdKinds <- None
 INVARIANT OneOwner
 INVARIANT RefsBackward
